@@ -1,163 +1,359 @@
 (* C12 — pinned property theorems. This file contains statements, `exact`, and
    Print Assumptions only. The pins in tools/pins/C12.v re-check the statements.
 
-   `final c hs xs` is the state after any list of scripted actions xs (sends through both modes,
-   carrier stalls, user reads, handle polls, local closes, transport kill, reopen) under any
-   configuration c and any lists hs of merge choices of the select! between the two queues;
-   every action is followed by running both Connection tasks to quiescence. *)
+   The model (Model.v) is one notification stream between two endpoints A (x = true) and B (x = false),
+   both directions at once, as a set of processes: per endpoint the user (handle calls, send_async
+   futures), the NotificationHandle, the sink queues, the Connection task and the protocol; plus two
+   byte carriers. `final c hs ts` is the state after ANY list ts of scheduler steps (one call or one poll
+   of one future each: Inductive step) under any configuration c (capacities and maximum sizes per
+   endpoint) and any lists hs of merge choices of the select! between the two queues. Nothing is
+   assumed about fairness, quiescence or the order in which tasks run. `cn s x`, `hn s x`, `gl s x` are
+   the Connection/sink state, the handle state and the ghost log (accepted, delivered, ...) of x. *)
 From Coq Require Import List NArith Bool.
 From V.gen Require Consts.
-From V.C12 Require Import Model Proofs.
+From V.C12 Require Import Model Proofs Inv2 Async Sched Progress.
 Import ListNotations.
 Open Scope N_scope.
 
-(* Per period k and per sending mode m: what user B received is a prefix of what the send calls
-   accepted — at most once, in sending order, nothing skipped once a later one was delivered, and
-   a closed stream delivered a prefix. For every capacity configuration, burst, stall pattern,
-   close point and merge order. *)
+(* ---------------------------------------------------------------- order, no duplication, no loss *)
+
+(* In each direction (sender x), per stream k and per sending mode m: what the peer's user received is a
+   prefix of what the send calls of x accepted — at most once, in sending order, nothing skipped once
+   a later one was delivered, and a closed stream delivered a prefix. Under any interleaving. *)
 Theorem C12_per_mode_fifo :
-  forall (c : cfg) (hs : list (list bool)) (xs : list action) (k : N) (m : bool),
-    prefix (proj k m (delivered (sg (final c hs xs)))) (proj k m (accepted (sg (final c hs xs)))).
+  forall (c : cfg) (hs : list (list bool)) (ts : list step) (x : bool) (k : N) (m : bool),
+    let s := final c hs ts in
+    prefix (proj k m (e_del (gl s (negb x)))) (proj k m (e_acc (gl s x))).
 Proof. exact fifo_prefix. Qed.
 Print Assumptions C12_per_mode_fifo.
 
-(* The same holds for delivered ++ still queued for the user: nothing queued can break the order. *)
+(* The same with everything that can still be delivered: what was delivered, then what the handle
+   can still report from its channel (nothing, once it has written stream k off), then what the
+   receiving Connection can still read from the carrier — together still a prefix of what was
+   accepted. Nothing in flight can break the order. *)
 Theorem C12_pending_prefix :
-  forall (c : cfg) (hs : list (list bool)) (xs : list action) (k : N) (m : bool),
-    let s := final c hs xs in
-    prefix (proj k m (delivered (sg s) ++ notifq (sb s))) (proj k m (accepted (sg s))).
+  forall (c : cfg) (hs : list (list bool)) (ts : list step) (x : bool) (k : N) (m : bool),
+    let s := final c hs ts in
+    prefix (proj k m (e_del (gl s (negb x))) ++
+            (if dead_for s (negb x) k then [] else proj k m (e_nq (hn s (negb x)))) ++
+            (if (k =? per s) && reading s (negb x) then proj k m (carrier (glo s x)) else []))
+           (proj k m (e_acc (gl s x))).
 Proof. exact pending_prefix. Qed.
 Print Assumptions C12_pending_prefix.
 
-(* No loss while open: while both Connection tasks run, every notification accepted in the current
-   period through mode m is delivered or sits, in order, in the user channel, the carrier, the
-   substream sink, the next_notification slot or its queue. *)
+(* No loss while open: while the transport is up, the sending Connection runs and the receiving one
+   has not finished, every notification accepted on the current stream through mode m is delivered
+   or sits, in order, in the receiver's channel, the carrier, the substream sink, the
+   next_notification slot or its queue. *)
 Theorem C12_no_loss_while_open :
-  forall (c : cfg) (hs : list (list bool)) (xs : list action) (m : bool),
-    let s := final c hs xs in
-    a_alive (sa s) = true -> b_alive (sb s) = true ->
-    proj (per s) m (accepted (sg s)) =
-    proj (per s) m (delivered (sg s) ++ notifq (sb s) ++ carrier (sl s) ++ sink (sa s) ++
-                    opt_list (parked (sa s)) ++ syncq (sa s) ++ asyncq (sa s)).
+  forall (c : cfg) (hs : list (list bool)) (ts : list step) (x : bool) (m : bool),
+    let s := final c hs ts in
+    killed s = false -> e_alive (cn s x) = true -> reading s (negb x) = true ->
+    proj (per s) m (e_acc (gl s x)) =
+    proj (per s) m (e_del (gl s (negb x)) ++ e_nq (hn s (negb x)) ++ carrier (glo s x) ++ e_sk (cn s x) ++
+                    opt_list (e_cur (cn s x)) ++ e_sq (cn s x) ++ e_aq (cn s x)).
 Proof. exact no_loss_while_open. Qed.
 Print Assumptions C12_no_loss_while_open.
 
-(* The synchronous send is one step with four outcomes (0 accepted, 1 ChannelClogged,
-   2 NoConnection, 3 Ok-because-unknown-peer); it never touches the blocked async senders; a
-   clogged queue raises ForceClose only if the handle has not raised it since the last
-   NotificationStreamClosed. *)
+(* The two directions do not interfere: a sending call of endpoint x (sync send; creating, polling or
+   dropping a send_async future) leaves untouched everything the direction negb x -> x depends on. *)
+Theorem C12_directions_independent :
+  forall (c : cfg) (s : st) (t : step) (x : bool), is_send_of x t = true ->
+    dview (fst (do_step c s t)) (negb x) = dview s (negb x).
+Proof. exact sends_leave_reverse_direction. Qed.
+Print Assumptions C12_directions_independent.
+
+(* Reopen: the streams of the delivered notifications never go backwards ... *)
+Theorem C12_reopen_order :
+  forall (c : cfg) (hs : list (list bool)) (ts : list step) (x : bool),
+    mono_from 0 (e_del (gl (final c hs ts) x)).
+Proof. exact delivered_periods_monotone. Qed.
+Print Assumptions C12_reopen_order.
+
+(* ... and a notification is reported only while the handle holds the sink of the very stream it was
+   sent on (e_dper logs `peers[peer]` at each NotificationReceived): never after that stream's
+   NotificationStreamClosed, never as part of a later stream. (Repaired code: stream identifier.) *)
+Theorem C12_stream_confinement :
+  forall (c : cfg) (hs : list (list bool)) (ts : list step) (x : bool),
+    let s := final c hs ts in
+    e_dper (gl s x) = map (fun n => Some (n_per n)) (e_del (gl s x)).
+Proof. exact stream_confinement. Qed.
+Print Assumptions C12_stream_confinement.
+
+(* The filter of the original code (`peers.contains_key(&peer)`) does not have this property: after
+   the schedule refute_steps handle B holds the sink of stream 2 and the original filter reports a
+   notification of stream 1, which the repaired filter drops. *)
+Theorem C12_unrepaired_filter_refuted :
+  let s := final refute_cfg [] refute_steps in
+  e_peers (hn s false) = Some 2 /\
+  snd (h_poll_gen false refute_cfg false 128 s) = UNotif (mkN true 1 true 7 8) /\
+  snd (h_poll refute_cfg false 128 s) = UPending.
+Proof. exact unrepaired_filter_refuted. Qed.
+Print Assumptions C12_unrepaired_filter_refuted.
+
+(* NotificationStreamOpened and NotificationStreamClosed alternate, for seen and still queued events. *)
+Theorem C12_events_alternate :
+  forall (c : cfg) (hs : list (list bool)) (ts : list step) (x : bool),
+    let s := final c hs ts in
+    alt_state false (e_seen (gl s x) ++ e_evs (hn s x)) = Some (e_alive (cn s x)).
+Proof. exact events_alternate. Qed.
+Print Assumptions C12_events_alternate.
+
+(* ---------------------------------------------------------------- the synchronous send *)
+
+(* One step with four outcomes (0 accepted, 1 ChannelClogged, 2 NoConnection, 3 Ok-because-unknown-
+   peer); it touches neither the other endpoint, nor the carriers, nor the waiting async senders; a
+   full queue is reported at once and raises ForceClose only if the handle has not raised it since the
+   last NotificationStreamClosed (and the command channel has room). *)
 Theorem C12_sync_nonblocking :
-  forall (c : cfg) (s : st) (t l : N),
-  let '(s', r) := send_sync c s t l in
-  waiters (sa s') = waiters (sa s) /\
-  match a_sink (sh s) with
+  forall (c : cfg) (x : bool) (s : st) (t l : N),
+  let '(s', r) := send_sync c x s t l in
+  gep s' (negb x) = gep s (negb x) /\ lAB s' = lAB s /\ lBA s' = lBA s /\
+  e_ws (hn s' x) = e_ws (hn s x) /\ e_aq (cn s' x) = e_aq (cn s x) /\
+  match e_peers (hn s x) with
   | None => r = 3 /\ s' = s
   | Some k =>
-      if live s k then
-        if len (syncq (sa s)) <? cap_s c
-        then r = 0 /\ syncq (sa s') = syncq (sa s) ++ [mkN k true t l] /\
-             accepted (sg s') = accepted (sg s) ++ [mkN k true t l] /\ fclog (sg s') = fclog (sg s)
-        else r = 1 /\ sa s' = sa s /\ accepted (sg s') = accepted (sg s) /\ a_clogged (sh s') = true /\
-             fclog (sg s') = (if a_clogged (sh s) then fclog (sg s) else fclog (sg s) ++ [k])
+      if live s x k then
+        if len (e_sq (cn s x)) <? c_s (ecf c x)
+        then r = 0 /\ e_sq (cn s' x) = e_sq (cn s x) ++ [mkN x k true t l] /\
+             e_acc (gl s' x) = e_acc (gl s x) ++ [mkN x k true t l] /\
+             e_fclog (gl s' x) = e_fclog (gl s x) /\ e_cmds (hn s' x) = e_cmds (hn s x)
+        else r = 1 /\ cn s' x = cn s x /\ e_acc (gl s' x) = e_acc (gl s x) /\ e_clog (hn s' x) = true /\
+             (if e_clog (hn s x) || negb (e_cmds (hn s x) <? c_c (ecf c x))
+              then e_fclog (gl s' x) = e_fclog (gl s x) /\ e_cmds (hn s' x) = e_cmds (hn s x)
+              else e_fclog (gl s' x) = e_fclog (gl s x) ++ [k] /\ e_cmds (hn s' x) = e_cmds (hn s x) + 1)
       else r = 2 /\ s' = s
   end.
 Proof. exact send_sync_spec. Qed.
 Print Assumptions C12_sync_nonblocking.
 
-(* Clogging triggers at most one force-close per open period: the log of the periods for which
-   handle A sent ForceClose has no duplicates, for every action script. *)
+(* At most one ForceClose per stream: the log of the streams for which a handle queued ForceClose has
+   no duplicates, under any schedule. *)
 Theorem C12_clog_once :
-  forall (c : cfg) (hs : list (list bool)) (xs : list action),
-    NoDup (fclog (sg (final c hs xs))).
+  forall (c : cfg) (hs : list (list bool)) (ts : list step) (x : bool),
+    NoDup (e_fclog (gl (final c hs ts) x)).
 Proof. exact clog_once. Qed.
 Print Assumptions C12_clog_once.
 
-(* The asynchronous send never drops or reorders: the notification joins the FIFO of blocked
-   senders (or fails at once on a closed stream); it is accepted only by admission into the queue. *)
+(* ForceClose closes: once the protocol has executed a queued ForceClose, every later poll of either
+   Connection task of that stream ends it, under any cooperative budget and whatever happens in between
+   (as long as no new stream has been set up, which needs both tasks to have ended). *)
+Theorem C12_force_close_closes :
+  forall (c : cfg) (s : st) (x : bool) (ts : list step) (z : bool) (b : N),
+    e_cmds (hn s x) <> 0 ->
+    let s' := fst (run c s (SCmd x :: ts ++ [SConn z b])) in
+    per s' = per s -> e_alive (cn s' z) = false.
+Proof. exact force_close_closes. Qed.
+Print Assumptions C12_force_close_closes.
+
+(* ---------------------------------------------------------------- the asynchronous send *)
+
+(* Creating and first polling a send_async future: it completes at once when a permit is free (the
+   notification joins the end of the queue and is accepted), fails at once on a closed stream, and
+   otherwise joins the end of the waiting senders without being accepted. *)
 Theorem C12_async_send :
-  forall (s : st) (t l : N),
-  let '(s', r) := send_async s t l in
-  accepted (sg s') = accepted (sg s) /\ syncq (sa s') = syncq (sa s) /\ asyncq (sa s') = asyncq (sa s) /\
-  match a_sink (sh s) with
-  | None => r = 3 /\ s' = s
-  | Some k => r = 0 /\
-      if live s k then waiters (sa s') = waiters (sa s) ++ [mkN k false t l] /\ async_err (sg s') = async_err (sg s)
-      else waiters (sa s') = waiters (sa s) /\ async_err (sg s') = async_err (sg s) + 1
+  forall (c : cfg) (x : bool) (s : st) (id t l : N),
+  let '(s', r) := async_start c x s id t l in
+  gep s' (negb x) = gep s (negb x) /\ lAB s' = lAB s /\ lBA s' = lBA s /\ e_sq (cn s' x) = e_sq (cn s x) /\
+  match find_w id (e_ws (hn s x)) with
+  | Some _ => r = 5 /\ s' = s
+  | None =>
+      match e_peers (hn s x) with
+      | None => r = 3 /\ s' = s
+      | Some k =>
+          let n := mkN x k false t l in
+          if live s x k then
+            if 0 <? afree (ecf c x) (cn s x) (e_ws (hn s x))
+            then r = 0 /\ e_aq (cn s' x) = e_aq (cn s x) ++ [n] /\ e_ws (hn s' x) = e_ws (hn s x) /\
+                 e_acc (gl s' x) = e_acc (gl s x) ++ [n]
+            else r = 4 /\ e_aq (cn s' x) = e_aq (cn s x) /\ e_ws (hn s' x) = e_ws (hn s x) ++ [mkW id n false] /\
+                 e_acc (gl s' x) = e_acc (gl s x)
+          else r = 2 /\ e_aq (cn s' x) = e_aq (cn s x) /\ e_ws (hn s' x) = e_ws (hn s x) /\
+               e_acc (gl s' x) = e_acc (gl s x)
+      end
   end.
-Proof. exact send_async_spec. Qed.
+Proof. exact async_start_spec. Qed.
 Print Assumptions C12_async_send.
 
-(* ... and it waits exactly when the queue is full: after a poll of the sending Connection a
-   blocked sender remains only if the async queue is at capacity. *)
+(* Polling a waiting future: it completes (and only then is the notification accepted and queued)
+   exactly when a permit was handed to it; it fails when its stream has closed; else it keeps waiting. *)
+Theorem C12_async_completion :
+  forall (x : bool) (s : st) (id : N),
+  let '(s', r) := async_poll x s id in
+  gep s' (negb x) = gep s (negb x) /\ lAB s' = lAB s /\ lBA s' = lBA s /\ e_sq (cn s' x) = e_sq (cn s x) /\
+  match find_w id (e_ws (hn s x)) with
+  | None => r = 5 /\ s' = s
+  | Some w =>
+      if wlive (cn s x) w then
+        if w_asg w
+        then r = 0 /\ e_aq (cn s' x) = e_aq (cn s x) ++ [w_n w] /\ e_acc (gl s' x) = e_acc (gl s x) ++ [w_n w] /\
+             e_ws (hn s' x) = remove_w id (e_ws (hn s x))
+        else r = 4 /\ s' = s
+      else r = 2 /\ e_aq (cn s' x) = e_aq (cn s x) /\ e_acc (gl s' x) = e_acc (gl s x) /\
+           e_ws (hn s' x) = remove_w id (e_ws (hn s x))
+  end.
+Proof. exact async_poll_spec. Qed.
+Print Assumptions C12_async_completion.
+
+(* The queue never exceeds its capacity, counting the permits held by waiting senders ... *)
+Theorem C12_async_capacity :
+  forall (c : cfg) (hs : list (list bool)) (ts : list step) (x : bool),
+    let s := final c hs ts in
+    len (e_aq (cn s x)) + held (cn s x) (e_ws (hn s x)) <= c_a (ecf c x).
+Proof. exact async_capacity. Qed.
+Print Assumptions C12_async_capacity.
+
+(* ... a send waits exactly when there is no capacity (no free permit <-> queue plus held permits
+   fill the capacity) ... *)
 Theorem C12_async_waits :
-  forall (c : cfg) (s : st),
-  a_alive (sa s) = true ->
-  let s' := fst (a_round c s) in
-  a_alive (sa s') = true -> waiters (sa s') = [] \/ cap_a c <= len (asyncq (sa s')).
-Proof. exact async_waits_round. Qed.
+  forall (c : cfg) (hs : list (list bool)) (ts : list step) (x : bool),
+    let s := final c hs ts in
+    afree (ecf c x) (cn s x) (e_ws (hn s x)) = 0 <->
+    len (e_aq (cn s x)) + held (cn s x) (e_ws (hn s x)) = c_a (ecf c x).
+Proof. exact async_waits. Qed.
 Print Assumptions C12_async_waits.
+
+(* ... no permit stays free while a sender of the live stream waits ... *)
+Theorem C12_async_work_conserving :
+  forall (c : cfg) (hs : list (list bool)) (ts : list step) (x : bool),
+    let s := final c hs ts in
+    0 < afree (ecf c x) (cn s x) (e_ws (hn s x)) ->
+    Forall (fun w => ua (e_per (cn s x)) (e_alive (cn s x)) w = false) (e_ws (hn s x)).
+Proof. exact async_work_conserving. Qed.
+Print Assumptions C12_async_work_conserving.
+
+(* ... permits are handed over in the order in which the senders started to wait: behind a sender
+   without a permit nobody holds one (srt) ... *)
+Theorem C12_async_fifo_handover :
+  forall (c : cfg) (hs : list (list bool)) (ts : list step) (x : bool),
+    let s := final c hs ts in
+    srt (e_per (cn s x)) (e_alive (cn s x)) (e_ws (hn s x)).
+Proof. exact async_fifo_handover. Qed.
+Print Assumptions C12_async_fifo_handover.
+
+(* ... and a dropped future returns its permit: nothing is accepted or queued, and the permit goes to
+   the first waiting sender of the live stream, or is free again if nobody waits. *)
+Theorem C12_async_drop_returns_permit :
+  forall (c : cfg) (hs : list (list bool)) (ts : list step) (x : bool) (id : N) (w : waiter),
+    let s := final c hs ts in
+    find_w id (e_ws (hn s x)) = Some w -> w_asg w = true -> wlive (cn s x) w = true ->
+    let s' := fst (async_drop c x s id) in
+    e_aq (cn s' x) = e_aq (cn s x) /\ e_acc (gl s' x) = e_acc (gl s x) /\
+    if existsb (ua (e_per (cn s x)) (e_alive (cn s x))) (e_ws (hn s x))
+    then held (cn s' x) (e_ws (hn s' x)) = held (cn s x) (e_ws (hn s x)) /\
+         afree (ecf c x) (cn s' x) (e_ws (hn s' x)) = afree (ecf c x) (cn s x) (e_ws (hn s x))
+    else held (cn s' x) (e_ws (hn s' x)) + 1 = held (cn s x) (e_ws (hn s x)) /\
+         afree (ecf c x) (cn s' x) (e_ws (hn s' x)) = afree (ecf c x) (cn s x) (e_ws (hn s x)) + 1.
+Proof. exact async_drop_returns_permit. Qed.
+Print Assumptions C12_async_drop_returns_permit.
+
+(* ---------------------------------------------------------------- sizes and the receiving side *)
 
 (* A notification larger than the sender's or the receiver's maximum is never delivered. *)
 Theorem C12_oversize_never_delivered :
-  forall (c : cfg) (hs : list (list bool)) (xs : list action), 1 <= cap_n c ->
-    Forall (fun n => n_len n <= max_out c /\ n_len n <= max_in c) (delivered (sg (final c hs xs))).
+  forall (c : cfg) (hs : list (list bool)) (ts : list step) (x : bool),
+    Forall (fun n => n_len n <= c_max (ecf c x) /\ n_len n <= c_max (ecf c (negb x)))
+           (e_del (gl (final c hs ts) x)).
 Proof. exact oversize_never_delivered. Qed.
 Print Assumptions C12_oversize_never_delivered.
 
-(* The user channel never exceeds its capacity, counting the slot reserved by the Connection,
-   and the receiving Connection does not touch the substream without a reservation. *)
+(* The channel to the handle never exceeds its capacity, counting the slot reserved by the Connection. *)
 Theorem C12_reserve_before_read :
-  forall (c : cfg) (hs : list (list bool)) (xs : list action), 1 <= cap_n c ->
-    let s := final c hs xs in
-    len (notifq (sb s)) + (if reserved (sb s) then 1 else 0) <= cap_n c.
+  forall (c : cfg) (hs : list (list bool)) (ts : list step) (x : bool),
+    let s := final c hs ts in
+    len (e_nq (hn s x)) + b2n (e_res (cn s x)) <= c_n (ecf c x).
 Proof. exact user_channel_bound. Qed.
 Print Assumptions C12_reserve_before_read.
 
+(* ... and a poll of the Connection that cannot get a slot leaves the inbound substream alone. *)
 Theorem C12_no_read_without_slot :
-  forall (c : cfg) (s : st),
-    b_alive (sb s) = true -> reserved (sb s) = false -> cap_n c <= len (notifq (sb s)) ->
-    forall fuel, b_run fuel c s = s.
-Proof. exact read_needs_reservation. Qed.
+  forall (c : cfg) (x : bool) (b : N) (s : st),
+    e_alive (cn s x) = true -> can_reserve c x s = false ->
+    let s' := conn_poll c x b s in
+    carrier (glo s' (negb x)) = carrier (glo s (negb x)) /\ e_nq (hn s' x) = e_nq (hn s x).
+Proof. exact read_needs_slot. Qed.
 Print Assumptions C12_no_read_without_slot.
 
-(* Reopen: the periods of the delivered notifications never decrease — once a notification of a
-   later period was delivered, none of an earlier period follows. *)
-Theorem C12_reopen_order :
-  forall (c : cfg) (hs : list (list bool)) (xs : list action), 1 <= cap_n c ->
-    mono_from 0 (delivered (sg (final c hs xs))).
-Proof. exact delivered_periods_monotone. Qed.
-Print Assumptions C12_reopen_order.
+(* ---------------------------------------------------------------- nothing is stuck behind a free slot *)
 
-(* ---- non-vacuity and an observation (Examples, by computation) ---- *)
-Definition ex_cfg : cfg := mkCfg 2 1 4 64 64.
+(* Each stage of the pipeline moves its head on as soon as the next stage has room, whatever the state.
+   (1) One poll of the sending Connection with the carrier accepting writes and a cooperative budget
+   larger than the number of queued notifications sends the parked notification and both queues
+   completely (sizes within the maximum), in an order that keeps each mode's order. *)
+Theorem C12_outbound_progress :
+  forall (c : cfg) (x : bool) (b : N) (s : st),
+  e_alive (cn s x) = true -> wgate (glo s x) = true -> qlen s x < b ->
+  Forall (fun n => n_len n <= c_max (ecf c x)) (opt_list (e_cur (cn s x)) ++ e_sq (cn s x) ++ e_aq (cn s x)) ->
+  let '(s1, refused) := out_phase c x b s in
+  refused = false /\ e_cur (cn s1 x) = None /\ e_sq (cn s1 x) = [] /\ e_aq (cn s1 x) = [] /\ e_sk (cn s1 x) = [] /\
+  (Forall (fun n => n_sync n = true) (e_sq (cn s x)) -> Forall (fun n => n_sync n = false) (e_aq (cn s x)) ->
+   forall k m, proj k m (carrier (glo s1 x)) = proj k m (pipe s x)).
+Proof. exact outbound_progress. Qed.
+Print Assumptions C12_outbound_progress.
 
-(* two notifications per mode travel through the whole pipeline and arrive in order *)
-Example C12_example_delivery :
-  let xs := [AReopen; APollA; AUserRecv; ASendSync 1 4; ASendAsync 2 5; ASendSync 3 6; ASendAsync 4 7;
-             AUserRecv; AUserRecv; AUserRecv; AUserRecv] in
-  let s := final ex_cfg [[true; false; true; false]] xs in
-  proj 1 true (delivered (sg s)) = [mkN 1 true 1 4; mkN 1 true 3 6] /\
-  proj 1 false (delivered (sg s)) = [mkN 1 false 2 5; mkN 1 false 4 7] /\
-  accepted (sg s) = delivered (sg s).
+(* (2) One poll of the receiving Connection (budget larger than what it has queued for sending) that
+   can get a slot of the handle channel moves (at least) the first frame of the carrier into it. *)
+Theorem C12_inbound_progress :
+  forall (c : cfg) (y : bool) (b : N) (s : st) (n : notif) (rest : list notif),
+  e_alive (cn s y) = true -> e_shut (cn s y) = false -> killed s = false -> qlen s y < b ->
+  snd (out_phase c y b s) = false -> can_reserve c y s = true ->
+  rgate (glo s (negb y)) = true -> carrier (glo s (negb y)) = n :: rest -> n_len n <= c_max (ecf c y) ->
+  exists more, e_nq (hn (conn_poll c y b s) y) = e_nq (hn s y) ++ n :: more.
+Proof. exact inbound_progress. Qed.
+Print Assumptions C12_inbound_progress.
+
+(* (3) A handle poll with any budget left and no event pending reports the head of its channel if it
+   belongs to the stream whose sink the handle holds. *)
+Theorem C12_handle_progress :
+  forall (c : cfg) (y : bool) (s : st) (k : N) (n : notif) (q : list notif) (b : N),
+  e_evs (hn s y) = [] -> e_peers (hn s y) = Some k -> e_nq (hn s y) = n :: q -> n_per n = k -> b <> 0 ->
+  let '(s', e) := h_poll c y b s in
+  e = UNotif n /\ e_nq (hn s' y) = q /\ e_del (gl s' y) = e_del (gl s y) ++ [n].
+Proof. exact handle_progress. Qed.
+Print Assumptions C12_handle_progress.
+
+(* ---------------------------------------------------------------- the quiescence stream *)
+
+(* The first harness stream ("one user action, then run the tasks until nothing is runnable") is a
+   particular family of schedules: every state it reaches is `final c hs ts` for some ts, so all of
+   the above holds for it. *)
+Theorem C12_quiescence_is_a_schedule :
+  forall (c : cfg) (hs : list (list bool)) (xs : list action),
+    exists ts, arun c 0 (init hs) xs = final c hs ts.
+Proof. exact quiescence_is_a_schedule. Qed.
+Print Assumptions C12_quiescence_is_a_schedule.
+
+(* ---- non-vacuity (Examples, by computation) ---- *)
+Definition ex_cfg : cfg := mkCfg (mkEC 2 1 4 2 64) (mkEC 2 2 4 2 64).
+
+(* notifications travel in both directions through the whole pipeline, interleaved, and arrive in order *)
+Example C12_example_both_directions :
+  let ts := [SOpen true; SOpen false; SHandle true 128; SHandle false 128;
+             SSync true 1 4; SSync false 2 5; SAsyncStart true 0 3 6; SAsyncStart false 1 4 7; SSync true 5 8;
+             SConn false BIG; SConn true 1; SConn true BIG; SConn false 128; SConn true 2;
+             SHandle true 128; SHandle false 128; SHandle true 128; SHandle false 128; SHandle false 128] in
+  let s := final ex_cfg [[true; false; true]; [false; true]] ts in
+  e_del (gl s false) = [mkN true 1 true 1 4; mkN true 1 false 3 6; mkN true 1 true 5 8] /\
+  e_del (gl s true) = [mkN false 1 false 4 7; mkN false 1 true 2 5] /\
+  e_acc (gl s true) = [mkN true 1 true 1 4; mkN true 1 false 3 6; mkN true 1 true 5 8].
 Proof. vm_compute. repeat split; reflexivity. Qed.
 
-(* a full sync queue reports ChannelClogged at once, and only the first clog raises ForceClose *)
-Example C12_example_clog :
-  let xs := [AReopen; APollA; AGate false true;
-             ASendSync 1 40000; ASendSync 2 40000; ASendSync 3 40000; ASendSync 4 40000;
-             ASendSync 5 40000; ASendSync 6 40000] in
-  let '(s, rs) := run (mkCfg 1 1 4 50000 50000) (init []) xs in
-  skipn 3 rs = [RCode 0; RCode 0; RCode 0; RCode 0; RCode 1; RCode 1] /\ fclog (sg s) = [1] /\
-  parked (sa s) = Some (mkN 1 true 3 40000).
-Proof. vm_compute. repeat split; reflexivity. Qed.
-
-(* Observation (not a violation of the property text): a notification of period 1 that is still in
-   the handle's channel when the stream is closed and reopened is delivered after the user has
-   seen NotificationStreamClosed and the NotificationStreamOpened of period 2 — the handle's
-   `peers` filter only drops it if the user polls in between. Order and at-most-once still hold. *)
-Example C12_stale_delivery_after_reopen :
-  let xs := [AReopen; APollA; AUserRecv; ASendSync 1 4; ACloseA; AReopen;
-             AUserRecv; AUserRecv; AUserRecv] in
-  skipn 6 (snd (run ex_cfg (init []) xs)) =
-    [RUser UClosed; RUser (UOpened 2); RUser (UNotif (mkN 1 true 1 4))].
+(* a second async sender waits for capacity, is handed the permit when the Connection pops the queue,
+   and completes on its next poll; a dropped waiter passes its permit on *)
+Example C12_example_async_waiters :
+  let ts := [SOpen true; SOpen false; SHandle true 128; SGate true false true;
+             SAsyncStart true 10 1 40; SAsyncStart true 11 2 40; SAsyncStart true 12 3 40;
+             SConn true BIG; SAsyncDrop true 11; SAsyncPoll true 12; SAsyncPoll true 12] in
+  snd (run ex_cfg (init []) ts) =
+    [RCode 0; RCode 0; RUser (UOpened 1); RCode 0; RCode 0; RCode 4; RCode 4; RCode 0; RCode 0; RCode 0; RCode 5].
 Proof. vm_compute. reflexivity. Qed.
+
+(* a full sync queue reports ChannelClogged at once, only the first clog queues ForceClose, and after
+   the protocol has executed it both Connections end on their next poll *)
+Example C12_example_clog :
+  let ts := [SOpen true; SOpen false; SHandle true 128; SSync true 1 8; SSync true 2 8; SSync true 3 8; SSync true 4 8;
+             SCmd true; SConn true 0; SConn false BIG] in
+  let '(s, rs) := run ex_cfg (init []) ts in
+  skipn 3 rs = [RCode 0; RCode 0; RCode 1; RCode 1; RCode 1; RCode 1; RCode 1] /\
+  e_fclog (gl s true) = [1] /\ e_alive (cn s true) = false /\ e_alive (cn s false) = false.
+Proof. vm_compute. repeat split; reflexivity. Qed.
